@@ -92,7 +92,8 @@ let file_of_bytes (b : Bytes.t) : BinNums.coq_N -> BinNums.coq_N =
     let i = small_int_of_n n in
     if i >= 0 && i < len then byte_table.(Char.code (Bytes.get b i)) else BinNums.N0
 
-let alim = n_of_hex "40000000"          (* 1 GiB: ASAN max_allocation_size_mb=1024 *)
+let alim_default = n_of_hex "40000000"  (* 1 GiB: ASAN max_allocation_size_mb=1024 *)
+let alim_cur = ref alim_default         (* per case: option A=<hex> (the big-allocation pass) *)
 
 let us s = String.map (fun c -> if c = ' ' then '_' else c) s
 let dec n = Printf.sprintf "%d" (int_of_n n)
@@ -117,6 +118,8 @@ let stage_msg (st : Bounded.stage) : string option =
       Some (Printf.sprintf "Invalid ELF %s header entry size: %s" (if sect then "section" else "program") (dec sz))
   | Bounded.StHdrRead (sect, idx, off) ->
       Some (Printf.sprintf "Cannot read ELF %s header #%s at %s" (if sect then "section" else "program") (dec_n idx) (dec_n off))
+  | Bounded.StHdrExtent (sect, num, off) ->
+      Some (Printf.sprintf "Invalid ELF %s header table (%s entries at %s)" (if sect then "section" else "program") (dec_n num) (dec_n off))
   | Bounded.StTooMany (sect, n) ->
       Some (Printf.sprintf "Too many %s headers (%s)" (if sect then "section" else "program") (dec_n n))
   | Bounded.StAlloc -> Some "Cannot allocate"
@@ -146,10 +149,11 @@ let elf_forbidden = "!err=file_#0:_Cannot_read_ELF_ !err=file_#0:_Invalid_ELF_ !
 
 let elf_ok_tokens (r : PElfModel.elf_result) : string =
   (* ERASEINFO: the descriptor of the last such note of the first walk, if the open succeeds *)
-  let erase = ref None and unknown = ref false in
+  let erase = ref None and unknown = ref false and vmci = ref false in
   Stdlib.List.iter (fun n ->
     match NotesModel.noarch_note n with
     | Bounded.Ok NotesModel.NaEraseinfo -> erase := Some n.NotesModel.n_desc
+    | Bounded.Ok NotesModel.NaVmcoreinfo | Bounded.Ok NotesModel.NaVmcoreinfoXen -> vmci := true
     | Bounded.Ok _ -> ()
     | _ -> unknown := true) r.PElfModel.er_notes;
   let t = r.PElfModel.er_tables in
@@ -159,7 +163,11 @@ let elf_ok_tokens (r : PElfModel.elf_result) : string =
     else (match !erase with
       | Some c -> Printf.sprintf " ?open=OK:erase=%x:%s" (int_of_n c.Bounded.clen) (chunk_bytes c 64)
       | None -> " ?open=OK:!erase=") in
-  elf_forbidden ^ (if has_strtab then "" else " ?open=OK:fmt=elf") ^ e
+  (* a blob attribute can only fail to be set for a note that do_notes hands to the callback *)
+  let nb = if has_strtab then "" else
+    (if !vmci then "" else " !err=file_#0:_Cannot_set_VMCOREINFO") ^
+    (match !erase with None -> " !err=file_#0:_Cannot_set_ERASEINFO" | Some _ -> "") in
+  elf_forbidden ^ (if has_strtab then "" else " ?open=OK:fmt=elf") ^ nb ^ e
 
 (* message prefix (after "file #0: ") for the stages of the other probes *)
 let other_msg (stg : Bounded.stage) : string option =
@@ -185,7 +193,7 @@ let other_msg (stg : Bounded.stage) : string option =
   | _ -> stage_msg stg
 
 let predict_open (f : BinNums.coq_N -> BinNums.coq_N) (flen : int) : string =
-  match ProbeModel.open_dump true alim f (n_of_int flen) with
+  match ProbeModel.open_dump true !alim_cur f (n_of_int flen) with
   | Bounded.Err (Bounded.KNOPROBE, _) -> "P MODEL-NOPROBE-ESCAPED"
   | Bounded.Err (st, stg) ->
       let m = (match other_msg stg with Some m -> " err=file_#0:_" ^ us m ^ "*" | None -> "") in
@@ -202,7 +210,11 @@ let predict_open (f : BinNums.coq_N -> BinNums.coq_N) (flen : int) : string =
        | ProbeModel.PoBeyond -> "P ?")
   | r -> "P " ^ ub_name r
 
-let predict_file (specs : string list) : string =
+let predict_file (opts : string) (specs : string list) : string =
+  alim_cur := alim_default;
+  Stdlib.List.iter (fun o ->
+    if String.length o > 2 && String.sub o 0 2 = "A=" then
+      alim_cur := n_of_hex (String.sub o 2 (String.length o - 2))) (split_on ',' opts);
   match specs with
   | [spec] ->
       let b = build_spec spec in
@@ -227,7 +239,7 @@ let run_case (line : string) : string =
   match words line with
   | ["R"; cap; src] -> rle_line cap src
   | ["R"; cap] -> rle_line cap "-"
-  | "F" :: _opts :: specs -> predict_file specs
+  | "F" :: opts :: specs -> predict_file opts specs
   | "S" :: _ -> sizes_case (words line)
   | _ -> "SKIP"
 
